@@ -420,17 +420,17 @@ func e4RaceCase(seed uint64, n int) Case {
 func init() {
 	register("E4", func(tier string, seed uint64) []Case {
 		var cases []Case
-		n := tierPick(tier, 120, 20000)
+		n := tierPick(tier, 120, 60000)
 		for i := 0; i < n; i++ {
 			cases = append(cases, e4Case(seed, i, "mixed", i%10 == 9))
 		}
-		m := tierPick(tier, 16, 1500)
+		m := tierPick(tier, 16, 4000)
 		for i := 0; i < m; i++ {
 			cases = append(cases, e4Case(seed, i, "watch-dead-block", false))
 			cases = append(cases, e4Case(seed, i, "watch-dead-error", false))
 			cases = append(cases, e4Case(seed, i, "watch-silent", false))
 		}
-		for i := 0; i < tierPick(tier, 60, 6000); i++ {
+		for i := 0; i < tierPick(tier, 60, 15000); i++ {
 			cases = append(cases, e4RaceCase(seed, i))
 		}
 		return cases
